@@ -145,10 +145,21 @@ fn src_legal(cx: &TxContext, src: &Ip, unspecified_ok: bool, what: &str) -> Resu
     }
     if let Some(own) = &cx.own_addrs {
         if !own.contains(src) {
+            NOT_OWN_ADDR.with(|c| c.set(Some(*src)));
             return Err(v("source-not-own", format!("{} sent from {} which is not an interface address ({:?})", what, src, own)));
         }
     }
     Ok(())
+}
+
+thread_local! {
+    /// the source address of the latest `source-not-own` verdict: the interface may have
+    /// acquired it during the very poll that emitted the frame (an RA processed earlier in
+    /// the same poll), so the simulation kit confirms such verdicts when the poll is over
+    static NOT_OWN_ADDR: std::cell::Cell<Option<Ip>> = const { std::cell::Cell::new(None) };
+}
+pub fn take_not_own_addr() -> Option<Ip> {
+    NOT_OWN_ADDR.with(|c| c.take())
 }
 
 pub fn validate_ip(cx: &TxContext, b: &[u8]) -> Result<FrameSummary, Violation> {
